@@ -28,6 +28,7 @@ import (
 	corev3 "github.com/envoyproxy/go-control-plane/envoy/config/core/v3"
 	listener "github.com/envoyproxy/go-control-plane/envoy/config/listener/v3"
 	tlsv3 "github.com/envoyproxy/go-control-plane/envoy/extensions/transport_sockets/tls/v3"
+	"google.golang.org/protobuf/proto"
 	"istio.io/istio/pkg/wellknown"
 
 	meshconfig "istio.io/api/mesh/v1alpha1"
@@ -90,8 +91,21 @@ var inboundSvcPorts = []svcPort{
 	{8082, 8080, protocol.HTTP},
 }
 
-// inboundDests are the destination ports the oracle looks at.
-var inboundDests = []uint32{80, 8080, 9090, 8081, 81, 9000, 7777}
+// inboundDests are the destination ports the harness and the oracle look at.
+var (
+	inboundDestsAll = []uint32{80, 8080, 9090, 8081, 81, 9000, 7777}
+	inboundDests    = inboundDestsAll
+)
+
+func inboundDestsOnly(keep map[uint32]bool) []uint32 {
+	var out []uint32
+	for _, d := range inboundDestsAll {
+		if keep[d] {
+			out = append(out, d)
+		}
+	}
+	return out
+}
 
 type ingressIn struct {
 	port    uint32
@@ -147,7 +161,22 @@ func sidecarConfig(ns string, ingress []ingressIn) config.Config {
 	}
 }
 
-func (s *sut) inboundListener(ns string, labels [][2]string, ingress []ingressIn, hbone, merge bool) string {
+func interception(none bool) model.TrafficInterceptionMode {
+	if none {
+		return model.InterceptionNone
+	}
+	return model.InterceptionRedirect
+}
+
+// inboundOpts: variations of the fixture.
+type inboundOpts struct {
+	hbone, merge  bool
+	interceptNone bool     // proxy with interception mode NONE
+	protos        []string // protocols of the services on 80, 8080, 9090, 81->8081 ("none": no such service); nil = default fixture
+}
+
+func (s *sut) inboundListener(ns string, labels [][2]string, ingress []ingressIn, o inboundOpts) string {
+	hbone, merge := o.hbone, o.merge
 	f := &failer{}
 	defer f.done()
 	var cfgs []config.Config
@@ -163,7 +192,16 @@ func (s *sut) inboundListener(ns string, labels [][2]string, ingress []ingressIn
 	const ip = "10.1.1.1"
 	var services []*model.Service
 	var instances []*model.ServiceInstance
-	for k, sp := range inboundSvcPorts {
+	fixture := inboundSvcPorts
+	if o.protos != nil {
+		fixture = nil
+		for k, name := range o.protos {
+			if name != "none" && k < 4 {
+				fixture = append(fixture, svcPort{inboundSvcPorts[k].port, inboundSvcPorts[k].target, protocol.Parse(name)})
+			}
+		}
+	}
+	for k, sp := range fixture {
 		svc := &model.Service{
 			CreationTime:   time.Unix(int64(1000+k), 0),
 			Hostname:       host.Name(fmt.Sprintf("svc%d.%s.svc.cluster.local", sp.port, ns)),
@@ -194,7 +232,7 @@ func (s *sut) inboundListener(ns string, labels [][2]string, ingress []ingressIn
 	}
 	proxy := cg.SetupProxy(&model.Proxy{
 		Type: model.SidecarProxy, ConfigNamespace: ns, IPAddresses: []string{ip}, Labels: lm,
-		Metadata: &model.NodeMetadata{Namespace: ns, Labels: lm, EnableHBONE: model.StringBool(hbone)},
+		Metadata: &model.NodeMetadata{Namespace: ns, Labels: lm, EnableHBONE: model.StringBool(hbone), InterceptionMode: interception(o.interceptNone)},
 	})
 	var vi, terminate, inner *listener.Listener
 	var custom []*listener.Listener
@@ -212,8 +250,11 @@ func (s *sut) inboundListener(ns string, labels [][2]string, ingress []ingressIn
 			inner = l
 		}
 	}
-	if vi == nil {
+	if vi == nil && !o.interceptNone {
 		return "no-virtual-inbound"
+	}
+	if vi == nil {
+		vi = &listener.Listener{} // interception NONE: only listeners bound to their ports
 	}
 	var out []string
 	for _, fc := range vi.FilterChains {
@@ -224,6 +265,26 @@ func (s *sut) inboundListener(ns string, labels [][2]string, ingress []ingressIn
 			continue
 		}
 		out = append(out, chainToken(fc))
+	}
+	// listener filters: on which of the ports we look at is the TLS inspector enabled (in the listener serving the port)
+	for _, d := range inboundDests {
+		l := vi
+		for _, cl := range custom {
+			if cl.GetAddress().GetSocketAddress().GetPortValue() == d {
+				l = cl
+			}
+		}
+		if tlsInspectorEnabled(l, d) {
+			out = append(out, fmt.Sprintf("ti:%d", d))
+		}
+	}
+	// Envoy rejects a listener in which two filter chains have the same match
+	dups := dupMatches(vi)
+	for _, l := range custom {
+		dups += dupMatches(l)
+	}
+	if dups > 0 {
+		out = append(out, fmt.Sprintf("dupmatch:%d", dups))
 	}
 	// listeners that bind to their port (Sidecar ingress captureMode NONE)
 	for _, l := range custom {
@@ -268,7 +329,7 @@ func hboneView(cg *core.ConfigGenTest, proxy *model.Proxy, terminate, inner *lis
 					http = "1"
 				}
 			}
-			e := fmt.Sprintf("%s:%d.%s.%s", dst, alpnClass(m.GetApplicationProtocols()), http, chainSock(fc))
+			e := fmt.Sprintf("%s:%s.%s.%s", dst, alpnCode(m.GetApplicationProtocols()), http, chainSock(fc))
 			if m.GetTransportProtocol() != "" {
 				e += "!tp"
 			}
@@ -296,6 +357,63 @@ func chainSock(fc *listener.FilterChain) string {
 }
 
 var _ = meshconfig.MeshConfig{}
+
+// tlsInspectorEnabled evaluates the tls_inspector listener filter and its filter_disabled predicate for a destination port.
+func tlsInspectorEnabled(l *listener.Listener, port uint32) bool {
+	for _, lf := range l.GetListenerFilters() {
+		if lf.Name != wellknown.TLSInspector {
+			continue
+		}
+		if lf.FilterDisabled == nil {
+			return true
+		}
+		return !evalPredicate(lf.FilterDisabled, port)
+	}
+	return false
+}
+
+func evalPredicate(p *listener.ListenerFilterChainMatchPredicate, port uint32) bool {
+	switch r := p.GetRule().(type) {
+	case *listener.ListenerFilterChainMatchPredicate_DestinationPortRange:
+		return int32(port) >= r.DestinationPortRange.Start && int32(port) < r.DestinationPortRange.End
+	case *listener.ListenerFilterChainMatchPredicate_OrMatch:
+		for _, q := range r.OrMatch.Rules {
+			if evalPredicate(q, port) {
+				return true
+			}
+		}
+		return false
+	case *listener.ListenerFilterChainMatchPredicate_AndMatch:
+		for _, q := range r.AndMatch.Rules {
+			if !evalPredicate(q, port) {
+				return false
+			}
+		}
+		return true
+	case *listener.ListenerFilterChainMatchPredicate_NotMatch:
+		return !evalPredicate(r.NotMatch, port)
+	case *listener.ListenerFilterChainMatchPredicate_AnyMatch:
+		return r.AnyMatch
+	}
+	return false
+}
+
+// dupMatches: number of filter chains of a listener whose FilterChainMatch repeats that of an earlier chain.
+func dupMatches(l *listener.Listener) int {
+	seen := map[string]bool{}
+	n := 0
+	for _, fc := range l.FilterChains {
+		b, err := proto.MarshalOptions{Deterministic: true}.Marshal(fc.GetFilterChainMatch())
+		if err != nil {
+			continue
+		}
+		if seen[string(b)] {
+			n++
+		}
+		seen[string(b)] = true
+	}
+	return n
+}
 
 // sockClass: what a DownstreamTlsContext demands from the peer.
 func sockClass(ctx *tlsv3.DownstreamTlsContext) string {
@@ -341,18 +459,43 @@ func (s *sut) inboundOracle(f []string, res string, fail func(clause, class, det
 			}
 			targets[i.port] = true
 		}
+	} else if f[0] == "ilp" {
+		for k, name := range strings.Split(f[3], ":") {
+			if name != "none" && k < 4 {
+				targets[uint32(inboundSvcPorts[k].target)] = true
+			}
+		}
 	} else {
 		for _, sp := range inboundSvcPorts {
 			targets[uint32(sp.target)] = true
 		}
 	}
-	type ch struct{ tp, sock string }
+	if f[0] == "ils" && len(f) == 6 && f[5] == "1" {
+		// interception NONE: only the ingress ports have a listener; the other ports are not proxied at all
+		keep := inboundDestsOnly(targets)
+		defer func() { inboundDests = inboundDestsAll }()
+		inboundDests = keep
+	}
+	type ch struct{ tp, sock, alpn, http string }
 	byDst := map[string][]ch{}
 	ownListener := map[string][]ch{}
+	tlsInspector := map[string]bool{}
 	if res != "-" {
 		for _, e := range strings.Split(res, ",") {
 			if strings.HasPrefix(e, "bh:") {
 				continue
+			}
+			if strings.HasPrefix(e, "ti:") {
+				tlsInspector[e[3:]] = true
+				continue
+			}
+			if strings.HasPrefix(e, "dupmatch:") {
+				class := "other"
+				if f[0] == "ils" && f[4] == "1" {
+					class = "merge-per-port-passthrough-repeats-service-port-chains"
+				}
+				fail("inbound-chain-match-unique", class, res)
+				return
 			}
 			if strings.HasPrefix(e, "L") {
 				// a listener of its own on that port: connections to the port arrive there, not at virtualInbound
@@ -363,7 +506,7 @@ func (s *sut) inboundOracle(f []string, res string, fail func(clause, class, det
 					fail("inbound-enforces", "custom-listener-chain-shape", e)
 					return
 				}
-				ownListener[lp] = append(ownListener[lp], ch{p[0], p[3]})
+				ownListener[lp] = append(ownListener[lp], ch{p[0], p[3], p[1], p[2]})
 				continue
 			}
 			dst, rest, _ := strings.Cut(e, ":")
@@ -372,7 +515,7 @@ func (s *sut) inboundOracle(f []string, res string, fail func(clause, class, det
 				fail("inbound-enforces", "unparsable-chain", e)
 				return
 			}
-			byDst[dst] = append(byDst[dst], ch{p[0], p[3]})
+			byDst[dst] = append(byDst[dst], ch{p[0], p[3], p[1], p[2]})
 		}
 	}
 	for _, d := range inboundDests {
@@ -409,6 +552,29 @@ func (s *sut) inboundOracle(f []string, res string, fail func(clause, class, det
 				fail("inbound-enforces", "user-tls-chain-shape", fmt.Sprintf("port %d chains %s", d, res))
 			}
 			continue
+		}
+		// without the TLS inspector every connection is "raw_buffer": it must be on exactly where some chain matches tls
+		needTI := false
+		for _, c := range cs {
+			needTI = needTI || c.tp == "1"
+		}
+		if tlsInspector[fmt.Sprint(d)] != needTI {
+			fail("inbound-enforces", "tls-inspector-enablement:"+kind, fmt.Sprintf("port %d mode %s inspector %v chains-match-tls %v %s", d, want, tlsInspector[fmt.Sprint(d)], needTI, res))
+		}
+		// per client kind: which chains Envoy selects (transport protocol, then application protocols)
+		var sel []selChain
+		bad := false
+		for _, c := range cs {
+			alpn, known := alpnOfCode[c.alpn]
+			if !known {
+				fail("inbound-enforces", "unknown-application-protocol-list", fmt.Sprintf("port %d %s", d, c.alpn))
+				bad = true
+			}
+			sel = append(sel, selChain{tls: c.tp == "1", alpn: alpn, sock: c.sock, http: c.http == "1", label: c.tp + "." + c.alpn + "." + c.sock})
+		}
+		if j := judgeClients(sel, want); !bad && j != "" {
+			g := strings.SplitN(j, " ", 2)
+			fail("inbound-enforces", g[0]+":"+kind, fmt.Sprintf("port %d mode %s %s chains %s", d, want, g[1], res))
 		}
 		switch {
 		case oneWay:
